@@ -360,13 +360,16 @@ func ruleSplit(c *Ctx) {
 			var flag *types.Var
 			for _, b := range fn.Blocks {
 				for _, in := range b.Instrs {
-					bo, ok := in.(*ssa.BinOp)
-					if !ok || bo.Op != token.EQL {
-						continue
-					}
-					k, ok := bo.Y.(*ssa.Const)
-					if !ok || k.Value == nil || k.Value.ExactString() != "239" {
-						continue
+					// the test for the first byte of the mark (0xEF), here or in a helper called from here
+					if !isConstCmp(in, "239") {
+						call, ok := in.(*ssa.Call)
+						if !ok {
+							continue
+						}
+						g := call.Call.StaticCallee()
+						if g == nil || g.Pkg != fn.Pkg || !containsConstCmp(g, "239", map[*ssa.Function]bool{}) {
+							continue
+						}
 					}
 					// a dominating test of a bool field of the receiver
 					for _, d := range fn.Blocks {
@@ -1108,4 +1111,39 @@ func prefixPreserving(f *ssa.Function) bool {
 		}
 	}
 	return ok && n > 0
+}
+
+// isConstCmp reports whether in compares a value for equality with the integer constant k.
+func isConstCmp(in ssa.Instruction, k string) bool {
+	bo, ok := in.(*ssa.BinOp)
+	if !ok || bo.Op != token.EQL {
+		return false
+	}
+	for _, v := range []ssa.Value{bo.X, bo.Y} {
+		if c, ok := v.(*ssa.Const); ok && c.Value != nil && c.Value.ExactString() == k {
+			return true
+		}
+	}
+	return false
+}
+
+// containsConstCmp reports whether fn, or a function of its package that it calls, compares a value with k.
+func containsConstCmp(fn *ssa.Function, k string, seen map[*ssa.Function]bool) bool {
+	if seen[fn] || len(seen) > 20 {
+		return false
+	}
+	seen[fn] = true
+	for _, b := range fn.Blocks {
+		for _, in := range b.Instrs {
+			if isConstCmp(in, k) {
+				return true
+			}
+			if call, ok := in.(*ssa.Call); ok {
+				if g := call.Call.StaticCallee(); g != nil && g.Pkg == fn.Pkg && containsConstCmp(g, k, seen) {
+					return true
+				}
+			}
+		}
+	}
+	return false
 }
